@@ -1,8 +1,13 @@
 #!/bin/sh
-# confirm_many.sh <worker-id> <seed-dir>...   : confirm seeds one after the other in scratch worktree /tmp/seedchk<id>
+# confirm_many.sh <worker-id> <seed-dir>[:check-only]...   : confirm seeds one after the other in scratch worktree /tmp/seedchk<id>
 ID=$1; shift
 mkdir -p /tmp/seeds
-for sd in "$@"; do
+for spec in "$@"; do
+  sd=${spec%%:*}
   n=$(basename "$sd")
-  SEEDCHK_ID=$ID python3 /verif/lib/confirm_seed.py "$sd" > /tmp/seeds/confirm-$n.json 2>&1
+  if [ "$spec" != "$sd" ]; then
+    SEEDCHK_ID=$ID python3 /verif/lib/confirm_seed.py "$sd" --check-only > /tmp/seeds/confirm-${n}b.json 2>&1
+  else
+    SEEDCHK_ID=$ID python3 /verif/lib/confirm_seed.py "$sd" > /tmp/seeds/confirm-$n.json 2>&1
+  fi
 done
